@@ -13,10 +13,11 @@ from models.m_str import decode_char
 ID = 'C16'
 PROGRAMS = {'core': dict(crate='vaporetto', features=['train', 'kytea'], extra=[dict(crate='vaporetto_rules'), dict(crate='vaporetto_tantivy')])}
 UNIT_CAP = 100
-BUDGET_S = {'quick': 200, 'thorough': 1800}
+BUDGET_S = {'quick': 600, 'thorough': 1200}      # wall-clock safety caps (exceeding one is reported as inconclusive); typical quick runs take 1-200 s
 BOUNDS = {
     'quick': {'single character': 'EVERY Unicode scalar value (one symbolic character; the table forks it into its arms, the default arm stays symbolic)',
               'strings': 'length 0..3 over {a key, its image, a half-width katakana key, any value that is not a key (symbolic)}',
+              'token stream (non-ASCII texts)': 'texts of 1..3 characters over the closed alphabet {a non-ASCII table key whose image has another character type, katakana A, hiragana A, a kanji} x 0..1 wsconst letters',
               'token stream': 'texts of n characters over {a, b, CR, LF, any other non-key NUL-free value (symbolic)} x wl wsconst letters (each any of D,R,H,T,K,O,G) with n + wl <= 3; '
                               'one model shape with symbolic weights'},
     'thorough': {'single character': 'every Unicode scalar value', 'strings': 'length 0..4 over the same classes', 'token stream': 'n <= 4, wl <= 2'},
@@ -59,8 +60,29 @@ def jobs(tier, seed):
             js.append({'name': 'stream/n%d/ws%d' % (n, wl), 'kind': 'stream', 'n': n, 'wl': wl})
             if 1 <= n <= 2 and wl == 0:
                 js.append({'name': 'stream/n%d/ws%d/after-ba' % (n, wl), 'kind': 'stream', 'n': n, 'wl': wl, 'prior': 'ba\nb'})
+    # texts without any ASCII character: a non-ASCII key of the normaliser table whose image has another character type, a katakana letter, any other value
+    na = non_ascii_key()
+    if na:
+        for n in (1, 2, 3):
+            for wl in (0, 1):
+                if n + wl > 3:
+                    continue
+                js.append({'name': 'stream-na/n%d/ws%d' % (n, wl), 'kind': 'stream', 'n': n, 'wl': wl, 'classes': na + 'アあ人', 'closed': True})
     js.sort(key=lambda j: -(j.get('n', 0) + j.get('wl', 0)))
     return js
+
+
+def non_ascii_key():
+    """a table key outside ASCII whose image differs in character type (e.g. full-width hyphen-minus -> katakana prolonged sound mark)"""
+    import predlib as P
+    tab = table_from_source()
+    for k in sorted(tab):
+        if ord(k) >= 0x80 and P.get_type_py(k) != P.get_type_py(tab[k]) and P.get_type_py(tab[k]) == 4:
+            return k
+    for k in sorted(tab):
+        if ord(k) >= 0x80 and P.get_type_py(k) != P.get_type_py(tab[k]):
+            return k
+    return ''
 
 
 # ---------------------------------------------------------------------------------------------
@@ -108,7 +130,14 @@ def harness_stream(e, prog, job, st):
                 raise Panic('token stream yields more tokens than characters')
     # text classes: two table keys, CR, LF, and "any other value that is not a key of the normaliser table" (the table itself is covered for every
     # scalar value by the char/all-scalars job; excluding the keys here keeps the 96-arm match from forking on every character)
-    ss = S.sym_string(e, 'x', job['n'], 'ab\r\n', exclude='\0' + ''.join(k for k in table_from_source() if k not in 'ab'))
+    classes = job.get('classes') or 'ab\r\n'
+    if job.get('closed'):
+        ss = S.SymStr()
+        for ci in range(job['n']):
+            k = e.choose(len(classes))
+            ss.chars.append(Int(ord(classes[k]), 32, False, ('char',))); ss.vars.append(None)
+    else:
+        ss = S.sym_string(e, 'x', job['n'], classes, exclude='\0' + ''.join(k for k in table_from_source() if k not in classes))
     st['s'] = ss
     sv = hlib.build_str(e, ss.chars)
     text = hlib.strref_of(sv)
